@@ -359,7 +359,7 @@ def convert_lines(raw_lines):
     return out, index
 
 
-def validate(tlc_lines, wd, name="trace", module="Trace_Arith", timeout=3000, chunks=None, overlap=0):
+def validate(tlc_lines, wd, name="trace", module="Trace_Arith", timeout=3000, chunks=None, overlap=0, cfg_text=None):
     """Runs TLC over the trace (split over `chunks` parallel TLC processes). Returns (bad list of (line, idx), stats)."""
     import threading
     nchunks = chunks or max(1, min(8, len(tlc_lines) // 200))
@@ -377,7 +377,10 @@ def validate(tlc_lines, wd, name="trace", module="Trace_Arith", timeout=3000, ch
         os.makedirs(d, exist_ok=True)
         tp = os.path.join(d, "trace.ndjson")
         open(tp, "w").write("\n".join(part) + "\n")
-        shutil.copy(os.path.join(SPEC, module + ".cfg"), d)
+        if cfg_text is None:
+            shutil.copy(os.path.join(SPEC, module + ".cfg"), d)
+        else:
+            open(os.path.join(d, module + ".cfg"), "w").write(cfg_text)
         bad = []
 
         def on_line(tag, obj):
